@@ -49,6 +49,10 @@ class AuditStream(Stream):
         for r in cap.audit.records:
             audits.append('%s c=%s d=%s' % (getattr(r, 'effect', '?'), s_pstr(str(getattr(r, 'candidates', '?'))),
                                             s_pstr(str(getattr(r, 'deciders', '?')))))
+            # a record goes to every handler (console, file, ...): each rendering must say the same
+            again = 'c=%s d=%s' % (s_pstr(str(getattr(r, 'candidates', '?'))), s_pstr(str(getattr(r, 'deciders', '?'))))
+            if not audits[-1].endswith(again):
+                audits[-1] += ' SECOND-RENDERING ' + again
         return '%s log=%s audits=%s' % (s_bool(ans), '+'.join(logs) if logs else '-', '|'.join(audits))
 
     def oracle(self, c, obs):
@@ -188,7 +192,7 @@ ASSUME = ['uids and descriptions rendered with str() are None / bool / int / str
 
 def main(argv):
     return run_check('C17', [AuditStream(), CachedLogStream()], argv, trusted_base=TRUSTED, assumptions=ASSUME,
-                     translated=('guard', 'checker', 'parser', 'subject', 'observable', 'pin_audit', 'pin_rules', 'pin_util'))
+                     translated=('guard', 'checker', 'parser', 'subject', 'observable', 'pin_audit', 'rules', 'pin_rules', 'pin_util'))
 
 
 if __name__ == '__main__':
